@@ -1211,6 +1211,33 @@ def s_poly(rng):
     return mod.hugr
 
 
+def s_poly_row(rng):
+    """A function polymorphic over a ROW variable, called at rows of other lengths than the declared one
+    (0, 2, 3 values), with state order edges around the calls: the static function port sits after the value
+    inputs of the INSTANTIATED signature."""
+    from hugr import ops, tys
+    from hugr.build.function import Module
+
+    cop = tys.TypeBound.Copyable
+    mod = Module()
+    row = tys.RowVariable(0, cop)
+    sig = tys.PolyFuncType([tys.ListParam(tys.TypeTypeParam(cop))], tys.FunctionType([row], [row]))
+    f = mod.declare_function("pass_through", sig)
+    n = rng.choice([0, 2, 3, 1])
+    inst_row = [rng.choice([tys.Bool, tys.Unit, tys.USize()]) for _ in range(n)]
+    main = mod.define_main(list(inst_row))
+    pre = main.add_op(ops.Custom("pre", signature=tys.FunctionType([], []), extension="verif"))
+    call = main.call(
+        f, *main.inputs(), instantiation=tys.FunctionType(list(inst_row), list(inst_row)),
+        type_args=[tys.SequenceArg([tys.TypeTypeArg(t) for t in inst_row])],
+    )
+    post = main.add_op(ops.Custom("post", signature=tys.FunctionType([], []), extension="verif"))
+    main.add_state_order(pre, call)
+    main.add_state_order(call, post)
+    main.set_outputs(*[call[i] for i in range(n)])
+    return mod.hugr
+
+
 def s_mono_recursive(rng):
     from hugr import ops, tys
     from hugr.build.function import Module
@@ -1428,7 +1455,7 @@ SCRIPTS = {
     "multi_out_order": s_multi_out_order, "poly": s_poly, "mono_recursive": s_mono_recursive,
     "tracked": s_tracked, "higher_order": s_higher_order, "consts": s_consts, "module_static": s_module_static,
     "cond_qubits": s_cond_qubits, "complex_loop": s_complex_loop, "quantum_loop": s_quantum_loop,
-    "unit_sums": s_unit_sums, "insert": s_insert,
+    "unit_sums": s_unit_sums, "insert": s_insert, "poly_row": s_poly_row,
 }
 
 
